@@ -523,7 +523,7 @@ def _derives_from_results_map(ctx: Ctx, fn: FuncInfo, e, at: int, depth: int = 0
     return False
 
 
-@rule('C16.FILTER-PROV', ['C16'], min_instances=3)
+@rule('C16.FILTER-PROV', ['C16', 'C01'], min_instances=3)
 def filter_prov(ctx: Ctx):
     """The filtered_context that reaches run_or_load_task is task.filter_context(<the Lab's context>) for
     the same task - exactly once - on every backend; run_or_load_task sets it before run()."""
